@@ -173,10 +173,48 @@ Proof.
   intros HG HS Hs. destruct (HG p t d Hs) as [H|(m & H)]; [right; exact H|left]. rewrite HS in H. inversion H; reflexivity.
 Qed.
 
-(* ... so the same sync, run again from whatever state the interruption left (any answers, any
-   interleaving, any listing order, even further faults, as long as it returns Ok without skips), puts the
-   complete source file in place - unless the file already carried the source's time before the first
-   run, which is C01's own exemption. *)
+(* the file clause of a mirror, once the state the repair run started from satisfies Good *)
+Lemma mirror_files_repaired dest_fl diff S D0 s D' :
+  Good S D0 s ->
+  mirror now_z incl normalize diff dest_fl S (d_fs s) D' ->
+  forall p t b, takes_part incl S p -> fget S p = Some (NFile (TSet t) b) -> (forall k, now_z k <> t) ->
+    fget D' p = Some (NFile (TSet t) b) \/
+    exists b0, fget D0 p = Some (NFile (TSet t) b0) /\ fget D' p = Some (NFile (TSet t) b0).
+Proof.
+  intros HG Hm p t b Htp HS Hnow.
+  destruct (Hm p) as [Hat _].
+  assert (Hne : fget S p <> None) by (rewrite HS; discriminate).
+  specialize (Hat (or_introl (conj Htp Hne))).
+  unfold mirror_at in Hat. rewrite HS in Hat. destruct Hat as [Hat|(b0 & m0 & Hs & Hst & Hsame)]; [left; exact Hat|].
+  destruct m0 as [t0|k]; cbn [stamp_z] in Hst.
+  - subst t0. rewrite Hsame, Hs. destruct (good_no_damage S D0 s p t b b0 HG HS Hs) as [->|HD0]; [left; reflexivity|].
+    right. exists b0. split; [exact HD0|reflexivity].
+  - exfalso. apply (Hnow k). exact Hst.
+Qed.
+
+(* ... so the same sync, run again from whatever state the interruption left (a fresh doer D2 on the same
+   tree; any answers, any interleaving, any listing order, even further faults, as long as it returns Ok
+   without skips), puts the complete source file in place - unless the file already carried the source's
+   time before the first run, which is C01's own exemption. *)
+Theorem rerun_repairs_from dest_fl cfg S D0 s D2 ans bits ls ld ft :
+  Good S D0 s -> d_fs D2 = d_fs s -> d_open D2 = None ->
+  valid_listing now_z incl normalize S ls -> valid_listing now_z incl normalize (d_fs s) ld ->
+  wf_fs S -> src_times_set S -> links_roundtrip normalize dest_fl S ->
+  let r := sync_one now_z normalize chunker cfg S D2 ans bits ls ld ft in
+  r_ok r = true -> r_skipped r = [] -> r_root_skipped r = false -> cf_dry cfg = false ->
+  no_through (d_events (r_dest r)) -> cf_fl cfg = dest_fl ->
+  mirror now_z incl normalize (cf_diff cfg) dest_fl S (d_fs s) (d_fs (r_dest r)) /\
+  forall p t b, takes_part incl S p -> fget S p = Some (NFile (TSet t) b) -> (forall k, now_z k <> t) ->
+    fget (d_fs (r_dest r)) p = Some (NFile (TSet t) b) \/
+    exists b0, fget D0 p = Some (NFile (TSet t) b0) /\ fget (d_fs (r_dest r)) p = Some (NFile (TSet t) b0).
+Proof.
+  intros HG Hfs Ho Hls Hld HwS Hts Hlr r Hok Hsk Hrs Hdry Hnt Hfl.
+  assert (Hm : mirror now_z incl normalize (cf_diff cfg) dest_fl S (d_fs s) (d_fs (r_dest r))).
+  { rewrite <- Hfs. apply (mirror_theorem now_z incl normalize chunker chunker_ok dest_fl cfg S D2 ans bits ls ld ft); auto.
+    rewrite Hfs. exact Hld. }
+  split; [exact Hm|]. eapply mirror_files_repaired; eauto.
+Qed.
+
 Theorem rerun_repairs dest_fl cfg S D0 s ans bits ls ld ft :
   Good S D0 s ->
   valid_listing now_z incl normalize S ls -> valid_listing now_z incl normalize (d_fs s) ld ->
@@ -188,19 +226,6 @@ Theorem rerun_repairs dest_fl cfg S D0 s ans bits ls ld ft :
   forall p t b, takes_part incl S p -> fget S p = Some (NFile (TSet t) b) -> (forall k, now_z k <> t) ->
     fget (d_fs (r_dest r)) p = Some (NFile (TSet t) b) \/
     exists b0, fget D0 p = Some (NFile (TSet t) b0) /\ fget (d_fs (r_dest r)) p = Some (NFile (TSet t) b0).
-Proof.
-  intros HG Hls Hld HwS Hts Hlr r Hok Hsk Hrs Hdry Hnt Hfl.
-  assert (Hm : mirror now_z incl normalize (cf_diff cfg) dest_fl S (d_fs s) (d_fs (r_dest r))).
-  { apply (mirror_theorem now_z incl normalize chunker chunker_ok dest_fl cfg S (reboot s) ans bits ls ld ft); auto. }
-  split; [exact Hm|]. intros p t b Htp HS Hnow.
-  destruct (Hm p) as [Hat _].
-  assert (Hne : fget S p <> None) by (rewrite HS; discriminate).
-  specialize (Hat (or_introl (conj Htp Hne))).
-  unfold mirror_at in Hat. rewrite HS in Hat. destruct Hat as [Hat|(b0 & m0 & Hs & Hst & Hsame)]; [left; exact Hat|].
-  destruct m0 as [t0|k]; cbn [stamp_z] in Hst.
-  - subst t0. rewrite Hsame, Hs. destruct (good_no_damage S D0 s p t b b0 HG HS Hs) as [->|HD0]; [left; reflexivity|].
-    right. exists b0. split; [exact HD0|reflexivity].
-  - exfalso. apply (Hnow k). exact Hst.
-Qed.
+Proof. intros HG. apply (rerun_repairs_from dest_fl cfg S D0 s (reboot s)); auto. Qed.
 
 End Rerun.
